@@ -392,6 +392,7 @@ def run_c20(rep):
     n, ops = sizes(rep, (600, 30), (20000, 100))
     fam_stdlib.stdlib_family(rep, n, ops)
     fam_stdlib.independence_probe(rep, sizes(rep, 60, 1000))
+    fam_stdlib.fractional_weights_probe(rep, sizes(rep, 80, 1500))
 
 
 def run_c06(rep):
@@ -487,6 +488,8 @@ def run_c19(rep):
                          weights=dict(choose=60, undo=12, redo=8, save=5, load=4, fresh=3, goto=3, read=3, bad=2, loadbad=0),
                          oracle_names=["oracle_c04"], known_classes=known_classes("C19"), variant="browser", label="c19-model")
     fam_browser.long_history_probe(rep)
+    fam_browser.import_sessions(rep, sizes(rep, 25, 400))
+    fam_browser.render_order_probe(rep)
     fam_browser.bundle_check(rep, sizes(rep, 6, 20), rep.seed)
 
 
